@@ -174,3 +174,24 @@ theorem coerce_of_homogeneous (l : List PyNum) (h : Homogeneous l) : coerce l = 
         | float q => simp [PyNum.toFloat, ih h.2]
 
 end HcipyVerif.Serial
+
+namespace HcipyVerif.Serial
+
+/-! ### shapes of separated grids -/
+
+theorem Coords.shape_length (c : Coords) (h : c.isSeparated = true) : c.shape.length = c.ndim := by
+  cases c <;> simp_all [Coords.shape, Coords.dims, Coords.ndim, Coords.isSeparated]
+
+theorem Coords.size_eq (c : Coords) (h : c.isSeparated = true) : c.size = prod c.shape := by
+  cases c <;> simp_all [Coords.size, Coords.isSeparated]
+
+theorem take_length_sub (ts gs : List Nat) (n : Nat) (h : gs.length = n) :
+    (ts ++ gs).take ((ts ++ gs).length - n) = ts := by
+  subst h
+  simp
+
+theorem cscToDense_shape (c : Csc) (n m : Nat) (h : c.shape = [n, m]) :
+    (cscToDense c).shape = [n, m] ∧ (cscToDense c).data.length = n * m := by
+  simp [cscToDense, h]
+
+end HcipyVerif.Serial
